@@ -1464,3 +1464,50 @@ def ctx_stmt(node):
     while n is not None and not isinstance(n, ast.stmt):
         n = getattr(n, '_parent', None)
     return n
+
+
+_NPY = 'elfi.store:NpyArray'
+_C06_GUARDS = [
+    (_NPY + '.append', 'raise:0', [('self.closed', True)], 'a closed array refuses data'),
+    (_NPY + '.append', 'self.init_from_array(_a)', [('self.initialized', False)],
+     'the header is laid out by the first appended array only'),
+    (_NPY + '.append', 'raise:1', [('_a.shape[1:] != self.shape[1:]', True)],
+     'rows of another shape are refused'),
+    (_NPY + '.append', 'raise:2', [('_a.dtype != self.dtype', True)],
+     'data of another dtype are refused (they would be written as raw bytes of another type)'),
+    (_NPY + '.truncate', 'raise:0', [('self.initialized', False)],
+     'an array without a header cannot be truncated'),
+    (_NPY + '.truncate', 'raise:1', [('self.closed', True)], 'a closed array cannot be truncated'),
+    (_NPY + '.close', 'self.fs.close()', [('self.initialized', True)],
+     'closing writes the header of an initialised array first'),
+    (_NPY + '.delete', 'os.remove(_f)', [('self.deleted', False)],
+     'the file is removed once'),
+    (_NPY + '.__getstate__', 'self.flush()', [('self.fs.closed', False)],
+     'pickling flushes an open file (and does not touch a closed one)'),
+]
+
+
+@obligation('C06-k', 'T11 T3', 'the on-disk array refuses, initialises, closes and flushes on the '
+            'right side of its state tests (frozen table of {} rows); the state predicates have '
+            'their definitions'.format(len(_C06_GUARDS)), floor=len(_C06_GUARDS) + 3,
+            necessary='data of another dtype or shape written as raw bytes, or a header laid out '
+                      'again by a later append, makes the file load as something else than what '
+                      'was written')
+def c06_k(ctx):
+    from .base import check_guard_table
+    check_guard_table(ctx, _C06_GUARDS)
+    arr = ctx.cls(_NPY)
+    defs = (('deleted', ('self.fs is None',)),
+            ('closed', ('self.deleted or self.fs.closed', 'self.fs is None or self.fs.closed')),
+            ('initialized', ('(not self.closed) and (self.header_length is not None)',
+                             'not self.closed and self.header_length is not None')))
+    for (nm, pats) in defs:
+        m = arr.methods.get(nm)
+        if m is None or not m.is_property:
+            raise AnchorMissing('NpyArray.{} property'.format(nm))
+        ctx.touch(m)
+        rr = returns(m)
+        ok = len(rr) == 1 and match_any(ctx.ex(m).term(rr[0].value), pats) is not None
+        ctx.check(ok, m, 'state predicate `{}`'.format(nm), pats[0],
+                  '`{}` is not defined as `{}`'.format(nm, pats[0]), fn=m,
+                  node=rr[0] if rr else m.node)
